@@ -144,14 +144,17 @@ Definition heights (l : list node) : nat := fold_right (fun x acc => Nat.max (he
 Definition ucall_sem (Bf : ftab) (n' : nat) (W : world) (nm : string) (args : list node) : option (world * res value) :=
   match ft_body Bf nm with
   | Some body =>
-      if (ft_arity Bf nm =? zlen args) && lpure (repeat VNil (List.length args)) body && Nat.leb (heights args) n'
-         && Nat.leb (height body) n' && fun_eqb (gval (w_glob W) nm) (ft_val Bf nm) then
+      if Nat.leb (heights args) n' && fun_eqb (gval (w_glob W) nm) (ft_val Bf nm) then
         match seq_res (den (w_glob W)) args with
         | Ok xs =>
-            match lden xs (w_glob W) body with
-            | Ok y => if is_fun y then None else Some (wbump W, Ok y)
-            | Fail err => Some (wbump W, Fail err)
-            end
+            if ft_arity Bf nm =? zlen args then
+              if lpure (repeat VNil (List.length args)) body && Nat.leb (height body) n' then
+                match lden xs (w_glob W) body with
+                | Ok y => if is_fun y then None else Some (wbump W, Ok y)
+                | Fail err => Some (wbump W, Fail err)
+                end
+              else None
+            else Some (W, Fail ErrArity)      (* the wrong number of arguments: found when the call is made *)
         | Fail err => Some (W, Fail err)
         end
       else None
@@ -199,22 +202,7 @@ Fixpoint ssem (n : nat) (W : world) (t : node) {struct n} : option (world * res 
                 | Fail err => Some (W, Fail err)
                 end
               else None
-          | None =>
-              match ft_body Bf nm with
-              | Some body =>
-                  if (ft_arity Bf nm =? 1) && lpure1 body && Nat.leb (height e) n' && Nat.leb (height body) n'
-                     && fun_eqb (gval (w_glob W) nm) (ft_val Bf nm) then
-                    match den (w_glob W) e with
-                    | Ok x =>
-                        match lden [x] (w_glob W) body with
-                        | Ok y => if is_fun y then None else Some (wbump W, Ok y)
-                        | Fail err => Some (wbump W, Fail err)
-                        end
-                    | Fail err => Some (W, Fail err)
-                    end
-                  else None
-              | None => None
-              end
+          | None => ucall_sem Bf n' W nm [e]
           end
       | NCall (NName nm) [] =>
           if String.eqb nm "read" then
@@ -446,6 +434,28 @@ Proof.
   injection H as <-. cbn [List.length]. rewrite (IH vr eq_refl). reflexivity.
 Qed.
 
+(* what a call of a user function can do: it leaves the globals, the output and the input as they were,
+   and its result is the arity error, an argument's error, or the body's value on the arguments' values *)
+Lemma ucall_sem_facts n W nm args W' res :
+  ucall_sem Bf n W nm args = Some (W', res) ->
+  exists body, ft_body Bf nm = Some body /\
+    w_glob W' = w_glob W /\ w_out W' = w_out W /\ w_in W' = w_in W /\
+    match seq_res (den (w_glob W)) args with
+    | Ok xs => res = Fail ErrArity \/ res = lden xs (w_glob W) body
+    | Fail err => res = Fail err
+    end.
+Proof.
+  intros H. unfold ucall_sem in H.
+  destruct (ft_body Bf nm) as [body|]; [|discriminate H]. exists body. split; [reflexivity|].
+  destruct (Nat.leb (heights args) n && fun_eqb (gval (w_glob W) nm) (ft_val Bf nm)); [|discriminate H].
+  destruct (seq_res (den (w_glob W)) args) as [xs|err]; [|injection H as <- <-; repeat split].
+  destruct (ft_arity Bf nm =? zlen args); [|injection H as <- <-; repeat split; left; reflexivity].
+  destruct (lpure (repeat VNil (List.length args)) body && Nat.leb (height body) n); [|discriminate H].
+  destruct (lden xs (w_glob W) body) as [y|err].
+  - destruct (is_fun y); [discriminate H|]. injection H as <- <-. repeat split. right. reflexivity.
+  - injection H as <- <-. repeat split. right. reflexivity.
+Qed.
+
 (* a call of a user function of the table, under the definitional semantics *)
 Lemma eval_ucall n nm args env st W' r :
   forallb pure args = true -> sem_bf st -> bop_of_name nm = None ->
@@ -454,10 +464,7 @@ Lemma eval_ucall n nm args env st W' r :
 Proof.
   intros Hp Hbf Hb Hs. unfold ucall_sem in Hs.
   destruct (ft_body Bf nm) as [body|] eqn:Ebody; [|discriminate Hs].
-  destruct (Z.eqb_spec (ft_arity Bf nm) (zlen args)) as [Ear|]; [|discriminate Hs]. cbn [andb] in Hs.
-  destruct (lpure (repeat VNil (List.length args)) body) eqn:Hlp; [|discriminate Hs]. cbn [andb] in Hs.
   destruct (Nat.leb_spec (heights args) n) as [Hh|Hh]; [|discriminate Hs]. cbn [andb] in Hs.
-  destruct (Nat.leb_spec (height body) n) as [Hhb|Hhb]; [|discriminate Hs]. cbn [andb] in Hs.
   destruct (fun_eqb (gval (w_glob (wof_s st)) nm) (ft_val Bf nm)) eqn:Ef; [|discriminate Hs].
   apply fun_eqb_eq in Ef. destruct Ef as [Eg [mo [id Ebf]]]. cbn [wof_s w_glob] in Eg, Hs.
   destruct (proj2 (proj2 Hbf) nm body mo id Hb Ebody Ebf) as [lc Hcl].
@@ -470,8 +477,13 @@ Proof.
   - cbn [rev app lookup bind]. fold (gval (s_globals st) nm). rewrite Eg, Ebf, Hcl.
     cbn [sc_params sc_locals sc_body sc_env].
     assert (Hlen : List.length xs = List.length args) by (apply (seq_res_length _ _ _ Exs)).
-    assert (Ez : (ft_arity Bf nm =? zlen xs) = true) by (apply Z.eqb_eq; rewrite Ear; unfold zlen; rewrite Hlen; reflexivity).
-    rewrite Ez. cbn [negb new_frame].
+    assert (Ezz : zlen xs = zlen args) by (unfold zlen; rewrite Hlen; reflexivity).
+    rewrite Ezz.
+    destruct (Z.eqb_spec (ft_arity Bf nm) (zlen args)) as [Ear|Near]; cbn [negb].
+    2:{ injection Hs as <- <-. exists st. split; [reflexivity|split; reflexivity]. }
+    destruct (lpure (repeat VNil (List.length args)) body) eqn:Hlp; [|discriminate Hs]. cbn [andb] in Hs.
+    destruct (Nat.leb_spec (height body) n) as [Hhb|Hhb]; [|discriminate Hs].
+    cbn [new_frame].
     match goal with |- context [eval _ _ _ ?s0] => set (st3 := s0) end.
     assert (Hlp' : lpure xs body = true).
     { rewrite (lpure_len xs (repeat VNil (List.length args)) body); [exact Hlp|]. unfold zlen. rewrite repeat_length, Hlen. reflexivity. }
@@ -619,50 +631,8 @@ Proof.
     cbn [forallb] in Hw. rewrite andb_true_r in Hw. cbn [ssem] in Hs.
     destruct (bop_of_name n0) as [b|] eqn:Eb.
     2:{ (* a user function *)
-      destruct (ft_body Bf n0) as [body|] eqn:Ebody; [|discriminate Hs].
-      destruct (Z.eqb_spec (ft_arity Bf n0) 1) as [Ear|]; [|discriminate Hs]. cbn [andb] in Hs.
-      destruct (lpure1 body) eqn:Hlp; [|discriminate Hs]. cbn [andb] in Hs.
-      destruct (Nat.leb_spec (height a) n) as [Hh|Hh]; [|discriminate Hs]. cbn [andb] in Hs.
-      destruct (Nat.leb_spec (height body) n) as [Hhb|Hhb]; [|discriminate Hs]. cbn [andb] in Hs.
-      destruct (fun_eqb (gval (w_glob (wof_s st)) n0) (ft_val Bf n0)) eqn:Ef; [|discriminate Hs].
-      apply fun_eqb_eq in Ef. destruct Ef as [Eg [mo [id Ebf]]]. cbn [wof_s w_glob] in Eg, Hs.
-      destruct (proj2 (proj2 Hbf) n0 body mo id Eb Ebody Ebf) as [lc Hcl].
-      destruct n as [|n1]; [pose proof (height_pos a); lia|].
-      change (eval (S (S n1)) (NCall (NName n0) [a]) env st)
-        with (bind (eval (S n1) a env st) (fun st' v =>
-                bind (lookup st' env (NName n0)) (fun st2 f =>
-                  match f with
-                  | VFun _ id0 =>
-                      match assoc_get (s_clos st2) id0 with
-                      | None => Done st2 (Sem.CAbort "no such function")
-                      | Some c =>
-                          if negb (sc_params c =? zlen (rev [v])) then Done st2 (CErr ErrArity)
-                          else
-                            let locals := repeat VNil (Z.to_nat (sc_locals c - sc_params c)) in
-                            let (st3, fid) := new_frame st2 (rev [v] ++ locals) in
-                            catch_return (eval (S n1) (sc_body c) {| e_frame := Some fid; e_closure := sc_env c |} st3)
-                      end
-                  | _ => Done st2 (CErr ErrType)
-                  end))).
-      rewrite (eval_pure a Hw (S n1) env st Hh).
-      destruct (den (s_globals st) a) as [x|err]; cbn [ctl_of bind].
-      - cbn [lookup bind]. fold (gval (s_globals st) n0). rewrite Eg, Ebf, Hcl. rewrite Ear.
-        cbn [sc_params sc_locals sc_body sc_env rev app zlen List.length Z.of_nat Z.eqb negb].
-        replace (negb (1 =? Pos.of_succ_nat 0)%positive) with false by reflexivity.
-        cbn [new_frame].
-        match goal with |- context [eval _ _ _ ?s0] => set (st3 := s0) end.
-        assert (Hlp' : lpure [x] body = true) by (rewrite (lpure_len [x] [VNil] body eq_refl); exact Hlp).
-        assert (Hfh : frame_holds [x] st3 {| e_frame := Some (s_next st); e_closure := None |}).
-        { right. exists (s_next st), (x :: repeat VNil (Z.to_nat (lc - 1))). split; [reflexivity|]. split.
-          - cbn [st3 s_frames assoc_get]. rewrite Z.eqb_refl. reflexivity.
-          - intros ix Hix. unfold zlen in Hix. cbn [List.length] in Hix. assert (ix = 0) by lia. subst ix. reflexivity. }
-        rewrite (eval_lpure [x] body Hlp' (S n1) _ st3 Hhb Hfh).
-        change (s_globals st3) with (s_globals st).
-        destruct (lden [x] (s_globals st) body) as [y|err]; cbn [ctl_of catch_return].
-        + destruct (is_fun y); [discriminate Hs|]. injection Hs as <- <-.
-          exists st3. split; [reflexivity|]. split; reflexivity.
-        + injection Hs as <- <-. exists st3. split; [reflexivity|]. split; reflexivity.
-      - injection Hs as <- <-. exists st. split; [reflexivity|split; reflexivity]. }
+      assert (Hw1 : forallb pure [a] = true) by (cbn [forallb]; rewrite Hw; reflexivity).
+      exact (eval_ucall n n0 [a] env st W' r Hw1 Hbf Eb Hs). }
     destruct (Nat.leb_spec (height a) n) as [Hh|Hh]; [|discriminate Hs].
     destruct (Nat.leb_spec 2 n) as [H2|H2]; [|discriminate Hs]. cbn [andb] in Hs.
     destruct (fun_eqb (gval (w_glob (wof_s st)) n0) (ft_val Bf n0)) eqn:Ef; [|discriminate Hs].
